@@ -1,7 +1,7 @@
 """Property registry: which contract modules serve which property, and what
 each claim leaves unverified (text copied into every evidence file)."""
 
-ALL_MODULES = ["contracts.c17", "contracts.c12", "contracts.c13", "contracts.c18"]
+ALL_MODULES = ["contracts.c17", "contracts.c12", "contracts.c13", "contracts.c18", "contracts.c09", "contracts.c05"]
 
 SPECS = {
     "C17": {
@@ -14,9 +14,9 @@ SPECS = {
     "C12": {
         "modules": ALL_MODULES,
         "level_text": "Index validation is proved with an inductive loop invariant for index lists of any length and any mix of int/bool/str/None entries: a normal return implies the result equals the input, all entries are proper ints in range and pairwise distinct; only ValueError may escape. The two boundary permutations are proved mutually inverse.",
-        "level_note": "Trusted: z3/cvc5, the VC generator. Not covered yet in this revision: _LayoutAdapter.bind_input/bind_output builder calls and the optimizer transactions on boundary transposes (C02).",
+        "level_note": "Trusted: z3/cvc5, the VC generator, the IRContext/builder object model and tensor algebra of specs/ctxmodel.py (builder.Transpose denotes Tr(perm, .)), get_value_for_var returns the value carrying the var (binding invariant, C16). bind_input/bind_output are proved to add exactly the boundary transposes (NCHW graph input with permuted shape and name in_<i>_nchw, the JAX var bound to its NHWC transpose; flagged outputs are the NCHW transpose of the var), the origin-recording precondition is a call-site obligation.",
         "design_ref": "DESIGN.md §4.12",
-        "unverified_part": "_LayoutAdapter.bind_input/bind_output (builder-emitted Transpose nodes), allclose layout handling, optimizer folding of the boundary transposes.",
+        "unverified_part": "allclose layout handling, optimizer folding of the boundary transposes (C02), numeric behaviour of ONNX Transpose itself.",
     },
     "C13": {
         "modules": ALL_MODULES,
@@ -31,5 +31,12 @@ SPECS = {
         "level_note": "Trusted: the numpy model of specs/nparr.py (np.allclose/np.array_equal by their documented element-wise definitions, IEEE rules for NaN/inf, finite arithmetic over the reals), opaque treatment of the ORT session and JAX pytree calls. Complex outputs and outputs_as_nchw re-packing are excluded from the postcondition.",
         "design_ref": "DESIGN.md §4.18",
         "unverified_part": "complex outputs (re-packed pairs), outputs_as_nchw/inputs_as_nchw layout handling, _build_ort_inputs feed construction, float rounding inside np.allclose, behaviour of ONNX Runtime itself.",
+    },
+    "C05": {
+        "modules": ALL_MODULES,
+        "level_text": "Interface construction is proved from the real source: add_input_for_invar / bind_input append exactly one input named in_<i> / in_<i>_nchw declaring the JAX shape (resp. its NCHW permutation) and bind the variable; bind_inputs yields one input per argument; add_outputs_from_vars / bind_output / bind_outputs yield exactly one output per result leaf, in order, denoting that leaf (cast or NCHW-transposed iff flagged), for any number of leaves and any flag list (inductive invariants). The dtype policy functions are proved class-preserving against an ONNX/numpy table written from the documentation; index validation as in C12.",
+        "level_note": "Trusted: object model of specs/ctxmodel.py, numpy dtype lattice tabulated from the installed numpy, get_value_for_var's binding invariant. Custom IO naming (_apply_custom_io_names_on_ir), input pruning and input_params materialisation are not under contract in this revision.",
+        "design_ref": "DESIGN.md §4.5",
+        "unverified_part": "declared output *shapes* (stamped by plugins), user-supplied input/output names, prune_unused_graph_inputs_ir, _materialize_input_params_on_ir, the output dtype reconciliation inside add_outputs_from_vars (class of the declared element type).",
     },
 }
